@@ -191,6 +191,11 @@ class World:
         return self.violations
 
     def step(self, op):
+        if self.real_enabled:
+            # every identifier reaches the library as its own object, as it
+            # would from a parsed file (equal ids are not identical objects)
+            op = json.loads(json.dumps(op))
+            self.cur_op = op
         k = op["k"]
         self.stats["op:" + k] += 1
         h = getattr(self, "op_" + k, None)
@@ -219,6 +224,54 @@ class World:
         real = self.R.CLS[op["cls"]]() if self.real_enabled else None
         self.put_graph(dst, RefGraph(op["cls"]), real, [], self.new_family())
         self.coherent(dst, {"C09"}, "new")
+
+    def op_bulk(self, op):
+        """a large graph (hundreds of atoms) built in one step: chain / ring /
+        sparse random skeleton, a few descriptors"""
+        dst = op["dst"]
+        if dst in self.slots or len(self.slots) >= self.max_slots:
+            return
+        rng = random.Random(op["seed"])
+        kind, n = op["cls"], op["n"]
+        m = RefGraph(kind)
+        ids = list(range(op.get("base", 0), op.get("base", 0) + n * op.get("stride", 1), op.get("stride", 1)))
+        rng.shuffle(ids)
+        els = op.get("els", [6, 1])
+        for a in ids:
+            m.atoms[a] = {"atom_type": rng.choice(els)}
+        deg = {a: 0 for a in ids}
+        for i in range(1, n):
+            j = rng.randrange(max(0, i - 4), i)
+            x, y = ids[i], ids[j]
+            if deg[x] < 4 and deg[y] < 4:
+                m.bonds[B(x, y)] = {}
+                deg[x] += 1
+                deg[y] += 1
+        for _ in range(n // 10):
+            x, y = rng.sample(ids, 2)
+            if B(x, y) not in m.bonds and deg[x] < 4 and deg[y] < 4:
+                m.bonds[B(x, y)] = {"reaction": rng.choice(ROLES)} if m.is_reaction and rng.random() < 0.5 else {}
+                deg[x] += 1
+                deg[y] += 1
+        if m.is_stereo:
+            nb = m.neighbours()
+            for a in ids[::7]:
+                if len(nb[a]) == 4:
+                    lig = sorted(nb[a])
+                    rng.shuffle(lig)
+                    m.astereo[a] = ("Tetrahedral", (a, *lig), rng.choice((1, -1)))
+        real = None
+        if self.real_enabled:
+            R = self.R
+            try:
+                real = R.guarded(R.build, m, rng, None, budget=60)
+            except Exception as e:  # noqa: BLE001
+                self.report({"C09"}, f"bulk|build-raised:{type(e).__name__}|{model.CLASSNAME[kind]}", repr(e))
+                return
+        self.put_graph(dst, m, real, [], self.new_family())
+        self.stats["bulk_graphs"] += 1
+        self.stats["bulk_atoms_max"] = max(self.stats["bulk_atoms_max"], n)
+        self.coherent(dst, {"C09"}, "bulk")
 
     def op_drop(self, op):
         sl = self.slots.get(op["s"])
